@@ -1692,6 +1692,11 @@ fn parse_action_atom(ac_span: &Spanned<String>, s: &ParserState) -> Result<&'sta
             _ => return custom(CustomAction::ReverseReleaseOrder, &s.a),
         },
         "use-defsrc" => {
+            // Like the transparent action, use-defsrc is resolved through the key's own
+            // coordinate, which does not exist for the virtual coordinates of chordsv2.
+            if s.pctx.trans_forbidden_reason.is_some() {
+                bail_span!(ac_span, "use-defsrc is forbidden within chordsv2");
+            }
             return Ok(s.a.sref(Action::Src));
         }
         _ => {}
